@@ -87,7 +87,46 @@ func init() {
 			}
 			fmt.Fprintf(&b, "  ⟨%q, %q, %s⟩%s\n", r.opt, r.method, natList(r.assigns, func(s string) string { return fmt.Sprintf("%q", s) }), sep)
 		}
-		b.WriteString("]\n\nend CoapVerif.Generated.OptionWiring\n")
+		b.WriteString("]\n\n")
+		// the servers' per-connection configuration: what createConn / getOrCreateConn write into the client.Config of an
+		// accepted connection (the variable initialised from DefaultConfig)
+		b.WriteString("structure ConnField where\n  server : String\n  field : String\n  value : String\n  deriving Repr, DecidableEq\n\n")
+		b.WriteString("/-- `cfg.<field> = <value>` in the servers' per-connection set-up (function literals abbreviated to `func`) -/\ndef connFields : List ConnField := [\n")
+		var cf []string
+		for _, sv := range [][3]string{{"tcp", "tcp/server/server.go", "createConn"}, {"dtls", "dtls/server/server.go", "createConn"}, {"udp", "udp/server/server.go", "getOrCreateConn"}} {
+			fset, f := parseFile(repo, sv[1])
+			fd := funcDecl(f, "Server", sv[2])
+			cfgVar := ""
+			n := 0
+			ast.Inspect(fd.Body, func(nd ast.Node) bool {
+				as, ok := nd.(*ast.AssignStmt)
+				if !ok {
+					return true
+				}
+				if len(as.Lhs) == 1 && len(as.Rhs) == 1 {
+					if id, ok := as.Lhs[0].(*ast.Ident); ok && strings.HasSuffix(c09ExprText(fset, as.Rhs[0]), ".DefaultConfig") {
+						cfgVar = id.Name
+						return true
+					}
+					if sel, ok := as.Lhs[0].(*ast.SelectorExpr); ok && cfgVar != "" {
+						if id, ok := sel.X.(*ast.Ident); ok && id.Name == cfgVar {
+							v := c09ExprText(fset, as.Rhs[0])
+							if _, isFunc := as.Rhs[0].(*ast.FuncLit); isFunc {
+								v = "func"
+							}
+							cf = append(cf, fmt.Sprintf("  ⟨%q, %q, %q⟩", sv[0], sel.Sel.Name, v))
+							n++
+						}
+					}
+				}
+				return true
+			})
+			if cfgVar == "" || n == 0 {
+				fail("%s: %s: no per-connection configuration initialised from DefaultConfig and filled in here", sv[1], sv[2])
+			}
+		}
+		b.WriteString(strings.Join(cf, ",\n"))
+		b.WriteString("\n]\n\nend CoapVerif.Generated.OptionWiring\n")
 		g.write("OptionWiring.lean", b.String())
 	})
 }
